@@ -473,6 +473,7 @@ def main_check(mod, tier, base_seed, quiet=False):
         return 2
     nviol = 0
     rc = 0
+    unconfirmed = []
     if res["violations"]:
         # report distinct signatures, lowest run index first
         seen = set()
@@ -489,15 +490,19 @@ def main_check(mod, tier, base_seed, quiet=False):
                 path, doc = write_replay(mod, seed, idx, tape, base_seed)
             ok, out = confirm_in_fresh_interpreter(mod, path)
             if not ok:
+                # never reported as a violation; a violation that does replay exactly (before or after this one) still stands
                 print("HARNESS-ERROR property=%s violation %s did not replay identically in a fresh interpreter (%s)\n%s"
                       % (mod.ID, sig, path, out))
-                write_evidence(mod, tier, base_seed, res, 0, {"harness_errors": ["non-replayable violation " + sig]})
-                return 2
+                unconfirmed.append(sig)
+                continue
             nviol += 1
             print("violation: %s\n  detail: %s\n  run_index=%d tape_len=%d (from %d)" % (sig, doc["detail"], idx, len(small), len(tape)))
             print("VIOLATION property=%s replay=%s" % (mod.ID, path))
             rc = 1
-    write_evidence(mod, tier, base_seed, res, nviol)
+    if unconfirmed and rc == 0:
+        write_evidence(mod, tier, base_seed, res, 0, {"harness_errors": ["non-replayable violation " + x for x in unconfirmed]})
+        return 2
+    write_evidence(mod, tier, base_seed, res, nviol, {"harness_errors": ["non-replayable violation " + x for x in unconfirmed]} if unconfirmed else None)
     if not quiet:
         print("%s %s: runs=%d nontrivial=%d distinct=%d states=%d wall=%.1fs (%.0f runs/s) faults=%s probes=%s"
               % (mod.ID, tier, tot["runs"], tot["nontrivial"], len(res["digests"]), len(res["states"]), res["wall"],
